@@ -39,8 +39,11 @@ def judge(data, base, accepted_seq=False):
     """All 8 masks against mask 7.  Returns ([(key, detail, mask)], runs)."""
     out = []
     r7 = run_mask(data, base, 7)
-    if r7.raised is not None or r7.horizon:
+    if r7.horizon:
         return out, 1, None
+    # (errors are never raised in these configurations: an exception that escapes the all-protocols reader is C08's
+    # to report, but what that reader yielded before it is still "the items yielded with all protocols enabled")
+    died = r7.raised is not None
     full = item_sigs(r7)
     n = 1
     # the 8 filtered readers are all constructed first and drained round-robin (live readers must not
@@ -54,7 +57,7 @@ def judge(data, base, accepted_seq=False):
     for mask in range(8):
         r = group[mask]
         n += 1
-        if r.raised is not None:
+        if r.raised is not None and not died:
             out.append((f"raised|mask={mask}|{type(r.raised).__name__}", str(r.raised)))
             continue
         if r.horizon:
@@ -67,9 +70,9 @@ def judge(data, base, accepted_seq=False):
             lost = [x for x in want if x not in got]
             kind = "extra_item" if extra else ("lost_item" if lost else "order")
             cls = raw_class((extra or lost or got or want)[0][0])
-            out.append((f"filter_changes_framing|{kind}|class={cls}|parsing={base['parsing']}",
+            out.append((f"filter_changes_framing|{kind}|class={cls}|parsing={base['parsing']}" + ("|all_protocols_reader_raised" if died else ""),
                         f"mask={mask} got={[x[0].hex() for x in got]} want={[x[0].hex() for x in want]}"))
-    if accepted_seq:
+    if accepted_seq and not died:
         # parsing=False vs parsing=True on a sequence of accepted frames
         bt = dict(base); bt["parsing"] = True; bt["protfilter"] = 7
         bf = dict(base); bf["parsing"] = False; bf["protfilter"] = 7
